@@ -1174,6 +1174,14 @@ class AttrParser(BaseParser):
             type: AnyFloat | IntegerType | IndexType | ComplexType,
         ):
             if isinstance(type, AnyFloat):
+                if (
+                    isinstance(self.value, int)
+                    and not isinstance(self.value, bool)
+                    and self.span.text[:2] in ("0x", "0X")
+                ):
+                    # A hexadecimal integer literal denotes the bit pattern
+                    raw = self.value.to_bytes(type.compile_time_size, "little")
+                    return next(type.iter_unpack(raw))
                 return self.to_float(parser)
 
             match type:
